@@ -22,7 +22,7 @@ from .. import core, tlc
 
 PROP = 'C15'
 SPEC_DIR = os.path.join(core.SPECS, 'cell')
-FORMATS = ['rule', 'uniq', 'uid', 'event', 'evdict', 'zk', 'ldap']
+FORMATS = ['rule', 'uniq', 'uid', 'event', 'evdict', 'zk', 'ldap', 'ldapupd']
 RULE = ('an item counts when the real encoder produced an encoding AND the real decoder '
         'returned a value for it, so that the round-trip comparison was made on real outputs; '
         'distinct = distinct (format, abstract value) pairs')
@@ -49,6 +49,15 @@ ASSUMPTIONS = [
     'copies lists element by element); C15.lossless demands the same multiset back, order may be '
     'canonicalised.  A real LDAP server keeps attribute values as a set; that is outside the '
     'pure to_entry/from_entry functions the property observes',
+    'LDAP update: pairs (v1, v2) of one schema; v1 stored as LdapObject.create does, v2 written '
+    'through the real Admin.update / _diff_entries onto an exact in-memory entry (MODIFY_ADD / '
+    '_REPLACE / _DELETE applied as LDAP defines them; exact, case-sensitive value comparison); '
+    'judged on DECODED objects against the set-wise specification of update (families the new '
+    'entry mentions take the new values, the rest stays), which is the normal form of v2 when v2 '
+    'says something about everything v1 has.  Narrowed: order-only / multiplicity-only changes of '
+    'one attribute (same value set, same size) are accepted with the old list, as '
+    '_diff_attribute_values calls them equal; pairs whose prescribed entry cannot be decoded are '
+    'counted, not judged',
     'LDAP: entry = _remove_empty(to_entry(x)) as LdapObject.create stores it; round trip is '
     'stated on the normal form N = from_entry o to_entry (N(N(x)) = N(x), entry of N(x) '
     'injective per schema); from_entry is called without a DN',
@@ -182,7 +191,57 @@ def rnd_ldap(rng, specs):
     return dict(schema=schema, obj=['d', pairs])
 
 
-def random_values(rng, n, specs):
+def _caseflip(rng, t):
+    """Swap the letter case of ONE string atom of a tagged tree (the first one a
+    random walk finds); the tree is returned unchanged if there is none."""
+    tag, x = t
+    if tag == 's' and x.swapcase() != x:
+        return ['s', x.swapcase()]
+    if tag == 'l' and x:
+        i = rng.randrange(len(x))
+        return ['l', x[:i] + [_caseflip(rng, x[i])] + x[i + 1:]]
+    if tag == 'd' and x:
+        i = rng.randrange(len(x))
+        return ['d', x[:i] + [[x[i][0], _caseflip(rng, x[i][1])]] + x[i + 1:]]
+    return t
+
+
+def rnd_ldapupd(rng, specs, extra):
+    """(v1, v2) of one schema: a random subset of keys at their first variant on
+    both sides; one key changes between two of its variants (specification
+    variants, the update variants, shaken lists) or only in letter case; now
+    and then a key exists on one side only."""
+    schema = rng.choice(['partition', 'cellalloc', 'app'])
+    spec = specs[schema]
+    f = rng.choice(spec)
+    vs = list(f['vs']) + list(extra[schema].get(f['k'], []))
+    a = rng.choice(vs)
+    x = rng.random()
+    if x < 0.35:
+        b = _caseflip(rng, a)
+    elif x < 0.55:
+        b = _shake(rng, a)
+    else:
+        b = rng.choice(vs)
+    p1, p2 = [], []
+    for g in spec:
+        if g['k'] == f['k']:
+            y = rng.random()
+            if y > 0.06:
+                p1.append([g['k'], a])
+            if y < 0.94:
+                p2.append([g['k'], b])
+        elif rng.random() < 0.6:
+            p1.append([g['k'], g['vs'][0]])
+            p2.append([g['k'], g['vs'][0]])
+    return dict(schema=schema, v1=['d', p1], v2=['d', p2])
+
+
+def random_values(rng, n, specs, extra):
+    return dict(ldapupd=[rnd_ldapupd(rng, specs, extra) for _ in range(n)], **_random_values(rng, n, specs))
+
+
+def _random_values(rng, n, specs):
     return dict(rule=[rnd_rule(rng) for _ in range(n)], uniq=[rnd_uniq(rng) for _ in range(n)],
                 uid=[rnd_uid(rng) for _ in range(n // 2)], event=[rnd_event(rng) for _ in range(n)],
                 zk=[rnd_zk(rng) for _ in range(n)], ldap=[rnd_ldap(rng, specs) for _ in range(n)])
@@ -239,7 +298,7 @@ def _validate(records, timeout):
 def _sub(fmt, v):
     if fmt in ('event', 'evdict'):
         return v['type']
-    if fmt == 'ldap':
+    if fmt in ('ldap', 'ldapupd'):
         return v['schema']
     if fmt == 'rule':
         return v['kind']
@@ -250,9 +309,10 @@ def run(ctx):
     from .. import codec_driver
     domain = _model_side(ctx)
     specs = domain.pop('specs')
+    updextra = domain.pop('updextra')
     sizes = {k: len(v) for k, v in domain.items()}
     rng = random.Random(ctx.seed * 7919 + 15)
-    extra = random_values(rng, 120 if ctx.quick else 6000, specs)
+    extra = random_values(rng, 120 if ctx.quick else 6000, specs, updextra)
     values = {k: _dedup(list(domain[k]) + extra[k]) for k in domain}
     src = {k: len(domain[k]) for k in domain}
     ctx.log('domain: %s enumerated by TLC, %s with random values' % (
@@ -264,10 +324,10 @@ def run(ctx):
         if len(r['items']) < want or want == 0:
             raise tlc.MachineryError('vacuity: format %s judged on %d of %d enumerated values'
                                      % (r['fmt'], len(r['items']), want))
-    return _judge(ctx, records, src, sizes)
+    return _judge(ctx, records, src, sizes, full_run=True)
 
 
-def _judge(ctx, records, n_enumerated, sizes):
+def _judge(ctx, records, n_enumerated, sizes, full_run=False):
     verdicts, stats = _validate(records, timeout=300 if ctx.quick else 1500)
     ctx.cmds.append(stats['cmd'])
     total = sum(len(r['items']) for r in records)
@@ -278,12 +338,16 @@ def _judge(ctx, records, n_enumerated, sizes):
     nontrivial = set()
     per_fmt = collections.Counter()
     drift_fmt = collections.Counter()
+    upd = collections.Counter()
     for v in verdicts:
         fmt = v['tid']
         it = by_fmt[fmt][v['i'] - 1]
         per_fmt[fmt] += 1
         if PROP in v['ex']:
             nontrivial.add(core.hist_hash([fmt, it['v']]))
+        for f in v['ex']:
+            if f.startswith('update.'):
+                upd[f[7:]] += 1
         fails = set(v['fail'])
         if any(f.startswith('drift.') for f in fails):
             ctx.drift += 1
@@ -303,6 +367,10 @@ def _judge(ctx, records, n_enumerated, sizes):
                     ('decoded ' + json.dumps(it['d'], sort_keys=True)[:300]) if it['ok']
                     else 'decoder failed: ' + it['err'][:200]),
                 replay_payload=dict(kind='codec', property=PROP, clause=f, fmt=fmt, values=vals)))
+    if full_run:
+        for flag in ('changed', 'full', 'seteq'):
+            if not upd[flag]:
+                raise tlc.MachineryError('vacuity: no update pair exercised %r' % flag)
     violations.sort(key=lambda x: (x['signature'], x['size']))
     for fmt in ('uniq', 'event', 'ldap'):
         for it in by_fmt.get(fmt, [])[3:4]:
@@ -315,7 +383,8 @@ def _judge(ctx, records, n_enumerated, sizes):
         ctx, level='exploration', violations=violations, evaluations=total,
         distinct_nontrivial=len(nontrivial), rule=RULE, samples=samples,
         traces_validated=len(records), assumptions=ASSUMPTIONS,
-        extra=dict(domain=sizes, enumerated_by_tlc=n_enumerated, judged_per_format=dict(per_fmt)))
+        extra=dict(domain=sizes, enumerated_by_tlc=n_enumerated, judged_per_format=dict(per_fmt),
+                   update_pairs=dict(upd)))
 
 
 def replay(ctx, path):
@@ -346,8 +415,10 @@ def selftest(ctx):
     if not dup_args:
         raise tlc.MachineryError('the enumerated LDAP domain has no application with args [-v, -v]')
     small = dict(uniq=[v for v in domain['uniq'] if '-' in v['app']][:6], rule=domain['rule'][:6],
-                 zk=[v for v in domain['zk'] if v[0] == 'd' and v[1]][:6], ldap=dup_args[:1])
-    good = codec_driver.record(small, ['uniq', 'rule', 'zk', 'ldap'])
+                 zk=[v for v in domain['zk'] if v[0] == 'd' and v[1]][:6], ldap=dup_args[:1],
+                 ldapupd=[u for u in domain['ldapupd'] if u['schema'] == 'cellalloc'
+                          and json.dumps(u['v1']) != json.dumps(u['v2'])][:3])
+    good = codec_driver.record(small, ['uniq', 'rule', 'zk', 'ldap', 'ldapupd'])
     recs = {r['fmt']: r for r in good}
 
     def variant(fmt, name, fn):
@@ -361,9 +432,12 @@ def selftest(ctx):
         variant('uniq', 'unique name loses its last character', lambda it: it[1].update(enc=it[1]['enc'][:-1])),
         variant('zk', 'decoded payload value altered', lambda it: it[0]['d'][1][0].__setitem__(1, ['s', 'altered'])),
         variant('ldap', 'normal form loses the repeated argument', _drop_dup_arg),
+        variant('ldapupd', 'read back after update is the OLD object',
+                lambda it: it[1].update(d=it[1]['want'][:1] + [it[1]['want'][1][1:]])),
     ]
-    expect = ['C15.roundtrip', 'C15.injective', 'C15.idLen', 'C15.roundtrip', 'C15.lossless']
-    lines = [3, 5, 2, 1, 1]
+    expect = ['C15.roundtrip', 'C15.injective', 'C15.idLen', 'C15.roundtrip', 'C15.lossless',
+              'C15.update']
+    lines = [3, 5, 2, 1, 1, 2]
     problems = []
     verdicts, _ = _validate(good, 300)
     if any(f.startswith('C15.') for v in verdicts for f in v['fail']):
